@@ -145,3 +145,18 @@ def transition_dates(z):
     for t, _ in z.utc_table[1:]:
         out.append(datetime.date.fromordinal(t // US_DAY))
     return out
+
+
+def midnight_zone(rng, t_utc):
+    """a fixed-offset zone in which the UTC datetime `t_utc` reads (almost) 00:00 — drives the
+    date re-matching into its retry and 'Unable to find' branches"""
+    tod = t_utc.hour * 60 + t_utc.minute
+    off = (-tod) % 1440                      # 0 … 1439 minutes east
+    if off > 840:
+        off -= 1440                          # −599 … 840
+    if rng.random() < 0.4:
+        off = int(round(off / 15.0)) * 15 + rng.choice([0, 0, 0, 15, -15])
+    else:
+        off = off + rng.choice([-1, -1, -2, -2, -3, 0, 1, 2, -4])    # minute resolution: a real straddle
+    off = max(-720, min(840, off))
+    return fixed(off)
